@@ -15,7 +15,7 @@ from mc import lib, engine
 
 PROPERTY = 'C08'
 RULE = ('operation-sequence space: every history of length 1 and every ordered pair (quick) / additionally every ordered '
-        'triple whose first two calls are drawn from the 24 argument-touching labels (thorough) over ~100 call labels x 3 '
+        'triple whose first two calls are drawn from the 28 argument-/state-touching labels (thorough) over 131 call labels x 3 '
         'annotation shapes (rich: labile+static+isotope+terminal+residue mods+charge+adducts; ambiguous: unknown+'
         'interval; plain); a state = one history on a freshly built world; non-trivial = every history')
 ASSUMPTIONS = ['explicit editors are excluded as the statement excludes them: inplace=True, add_*/pop_* (incl. the add_mods '
@@ -414,7 +414,7 @@ def check(case, ctx):
         if got != baseline(case['shape'], case['hist'][-1]):
             ctx.fail('result-aliases-hidden-state', baseline(case['shape'], case['hist'][-1])[:300], got[:300],
                      history=case['hist'], shape=case['shape'], call=case['hist'][-1], step=len(case['hist']) - 1)
-    ctx.outcome = [case['shape'], case['hist']]
+    ctx.outcome = [case['shape'], case['hist'][-1], lib.h64(got)]   # distinct outcomes = distinct (shape, label) results
 
 
 def _first_diff(a, b):
